@@ -747,6 +747,8 @@ func variants() []variant {
 			{"whilebreak", "while true { if g_bool() { break; } return V; }"},
 			{"matchnodefault", "match g_i32() { 1 => { return V; } 2 => { return V; } }"},
 			{"nestedif", "if g_bool() { if g_bool() { return V; } } else { return V; }"},
+			{"enummissing", "match g_En() { En::A => { return V; } }"},
+			{"enumduparm", "match g_En() { En::A => { return V; } En::A => { return V; } }"},
 		} {
 			text := strings.ReplaceAll(sh[1], "V", v)
 			m := rt(text, t)
